@@ -28,7 +28,11 @@ RULE = ("corpus: one witness per recorded finding; adversarial: 40 hand-written 
         "mentions it - 33-case matrix + 40 (quick) / 400 (thorough) random ones, x 2 modes, each run in 4 (quick) / 16 (thorough) fresh processes "
         "(hash orders), a failure in any run counts; multisite: one event name emitted from 2 or 3 sites with different payload types (each with a "
         "nested dependency, reachable from nothing else), every order of the sites x one file | one file per site x helper | struct literal | emit_to, "
-        "49 projects x 2 modes x 2 processes; history: 60 (quick) / 600 (thorough) two-generation histories into one output directory (event removed / "
+        "49 projects x 2 modes x 2 processes; rebinding: emitting functions whose payload variable is typed by a parameter / typed let / struct literal / path call and then re-bound by 0..2 "
+        "further lets (untypable method or plain call, reference, copy of another variable, struct literal, typed let) in every order, emitted by value or "
+        "by reference (220 projects x 2 modes); layout: serde types defined below module directories named dist, node_modules, build, out, gen, vendor, "
+        "tests, examples, benches, bin, .cargo, target2, my_target, git, foo.rs, src, lib (flat, nested, doubled; 51 projects x 2 modes); "
+        "history: 60 (quick) / 600 (thorough) two-generation histories into one output directory (event removed / "
         "added / unrelated project / same project; same or other mode), the second run is judged: the files it wrote (marker technique) against the "
         "model of the second project, index.ts against exactly those files; random: 600 (quick) / 6000 (thorough) projgen graph projects with events, channels, enums, type mappings, 70% clean contexts / 30% wild, x 2 modes; "
         "atp: add_types_prefix through the real Tera filter on every Rust type of depth <= 2 (quick) / 3 (thorough) over 8 constructors and "
@@ -57,7 +61,7 @@ def build():
 def run_impl(job):
     case, mode = job
     with vlib.Sandbox("c02") as sb:
-        r = pg.generate(sb, case, mode)
+        r = pg.generate(sb, G.render_ready(case), mode)
     return r
 
 
@@ -71,7 +75,7 @@ def run_impl_history(job):
     import shutil
     first, m1, second, m2 = job
     with vlib.Sandbox("c02h") as sb:
-        pg.generate(sb, first, m1)
+        pg.generate(sb, G.render_ready(first), m1)
         shutil.rmtree(sb.path("proj"), ignore_errors=True)
         if os.path.exists(sb.path("tauri.conf.json")):
             os.remove(sb.path("tauri.conf.json"))
@@ -82,7 +86,7 @@ def run_impl_history(job):
                 if os.path.isfile(fp):
                     with open(fp, "a") as f:
                         f.write(MARK)
-        r = pg.generate(sb, second, m2)
+        r = pg.generate(sb, G.render_ready(second), m2)
     stale = {n: t for n, t in r["files"].items() if MARK.strip() in t}
     r["files"] = {n: t for n, t in r["files"].items() if n not in stale}
     r["stale"] = stale
@@ -263,6 +267,8 @@ def run(rep):
         xf.append(("crossfile-random-%d" % i, G.crossfile_random(rng)))
     rep.add("crossfile", evaluate(both(xf), reps=reps))
     rep.add("multisite", evaluate(both(G.multisite_cases()), reps=2))
+    rep.add("rebinding", evaluate(both(G.rebinding_cases())))
+    rep.add("layout", evaluate(both(G.layout_cases())))
     hp = G.history_pairs(rng, 60 if rep.tier == "quick" else 600)
     hist = {label: (a, m1, b, m2) for label, a, m1, b, m2 in hp}
     rep.add("history", evaluate([(label, b, m2) for label, a, m1, b, m2 in hp], history=hist))
